@@ -33,7 +33,12 @@ func (de *DepthExecutor) Execute(ers []*ExecutionRequest) (*DepthExecutorRespons
 		if pi != pj {
 			return pi < pj
 		}
-		return ers[i].QueryPlanStep.URL < ers[j].QueryPlanStep.URL
+		if ers[i].QueryPlanStep.URL != ers[j].QueryPlanStep.URL {
+			return ers[i].QueryPlanStep.URL < ers[j].QueryPlanStep.URL
+		}
+		// two steps of one service at the same object (inline fragments of an abstract type):
+		// requests which are still equal here are the same request
+		return ers[i].QueryPlanStep.QueryString < ers[j].QueryPlanStep.QueryString
 	})
 
 	// group by requests by corresponding queryer
